@@ -12,7 +12,7 @@
  */
 #define VF_EXTRA_STUBS
 #include "vf_env.h"
-static int g_pending=0; static int g_hs=0; static int g_blockins=0;
+static int g_pending=0; static int g_hs=0; static int g_blockins=0; static int g_np_err=0;   /* ghost: the page source reported end of data or a read error */
 #define g_init_vi env_init_vi
 #include "vorbisfile.c"
 int vorbis_synthesis(vorbis_block *vb,ogg_packet *op){ CHECK(env_dsp_live==1 && env_blk_live==1,"vorbis_synthesis only on an initialised decoder"); return ND_BOOL()?0:OV_ENOTAUDIO; }
@@ -21,7 +21,7 @@ int vorbis_synthesis_pcmout(vorbis_dsp_state *v,float ***pcm){ CHECK(env_dsp_liv
 int vorbis_synthesis_halfrate_p(vorbis_info *vi){ return g_hs; }
 static ogg_int64_t _get_next_page(OggVorbis_File *vf,ogg_page *og,ogg_int64_t boundary){
   if(env_budget<=0) return OV_EOF; env_budget--;
-  ogg_int64_t r=ND_long(); if(r<0){ ASSUME(r==OV_FALSE||r==OV_EOF||r==OV_EREAD); return r; }
+  ogg_int64_t r=ND_long(); if(r<0){ ASSUME(r==OV_FALSE||r==OV_EOF||r==OV_EREAD); g_np_err=1; return r; }
   ASSUME(r>=vf->offset && r<(1L<<40)); env_fill_page(og); vf->offset=r+27+4; return r; }
 static int _fetch_headers(OggVorbis_File *vf,vorbis_info *vi,vorbis_comment *vc,long **serialno_list,int *serialno_n,ogg_page *og_ptr){
   CHECK(!vf->seekable && vi==vf->vi && vc==vf->vc && serialno_list==0,"streaming re-read of headers uses slot 0");
@@ -59,6 +59,7 @@ void harness(void){
   ogg_packet opin; int use_in=ND_BOOL(); int readp=ND_BOOL(), spanp=ND_BOOL();
   int r=_fetch_and_process_packet(&vf,use_in?&opin:0,readp,spanp);
   CHECK(r==1||r==0||r==OV_EOF||r==OV_HOLE||r==OV_EBADLINK||r==OV_EFAULT||r==OV_EREAD||r==OV_ENOTVORBIS||r==OV_EBADHEADER||r==OV_EVERSION,"documented return code");
+  if(g_np_err) CHECK(r==OV_EOF,"when no further page can be had (end of data OR read error) the fetch ends with OV_EOF: the lap-data collectors loop until they see exactly that code");
   CHECK(vf.ready_state>=OPENED && vf.ready_state<=INITSET,"ready state stays in range");
   CHECK((vf.ready_state==INITSET)==(env_dsp_live==1 && env_blk_live==1),"INITSET <=> decoder and block initialised (ghost)");
   if(vf.seekable){ CHECK(vf.current_link>=0 && vf.current_link<vf.links,"current link inside the table");
